@@ -29,6 +29,20 @@ def c13_precedence(tier="quick", seed=0):
             other = f"({a} {o1} ({b} {o2} {d}))" if left else f"(({a} {o1} {b}) {o2} {d})"
             cases.append((o1, o2, flat, tree, other))
             prog.append(f"out.push([{flat}, {tree}, (({flat})), {other}]);")
+    # the same flat expressions with operands in redundant parentheses / element accesses (the parser resumes a binary
+    # expression after such a primary through a second code path)
+    wraps = [lambda x: f"({x})", lambda x: f"(({x}))", lambda x: f"[{x}][0]", lambda x: f"[[{x}]][0][0]"]
+    for o1, o2 in itertools.product(OPS, repeat=2):
+        left = PREC[o1] > PREC[o2] or (PREC[o1] == PREC[o2] and o1 != "**")
+        a, b, d = vals[(len(o1) + len(o2)) % len(vals)]
+        tree = f"(({a} {o1} {b}) {o2} {d})" if left else f"({a} {o1} ({b} {o2} {d}))"
+        other = f"({a} {o1} ({b} {o2} {d}))" if left else f"(({a} {o1} {b}) {o2} {d})"
+        forms = []
+        for w in wraps:
+            forms += [f"({w(a)} {o1} {b} {o2} {d})", f"[{w(a)} {o1} {b} {o2} {d}][0]", f"{w(a)} {o1} {w(b)} {o2} {w(d)}", f"(({a} {o1} {w(b)} {o2} {d}))"]
+        for fm in forms:
+            cases.append((o1, o2, fm, tree, other))
+            prog.append(f"out.push([{fm}, {tree}, (({fm})), {other}]);")
     tail = "out.map(function(r){ return r.map(function(v){ return typeof v + ':' + v }) })"
     got = []
     body = prog[1:]
@@ -54,6 +68,10 @@ ACCEPT_SAME = [("1+2*3", " 1 +\t2 /*c*/ * // d\n 3 "), ("var a=[1,2,3];a[1]", "v
                ("'a'+\"b\"", "(('a')) + ((\"b\"))"), ("0x1F+0b11+0o17+1e2+.5", "31 + 3 + 15 + 100 + 0.5"), ("'\\x41\\u0042\\n\\'\\\"'", "\"AB\\n'\\\"\""), ("1.50e+1", "15"), ("010 + 1", "11"),
                ("var x=5;x>3?'y':'n'", "var x = 5 ; ( ( x ) > ( 3 ) ) ? ( 'y' ) : ( 'n' )"), ("var o={a:{b:[1,{c:2}]}};o.a.b[1].c", "var o = { a : { b : [ 1 , { c : 2 } ] } } ; ( ( ( o . a ) . b ) [ 1 ] ) . c"),
                ("var i=0,s=0;for(;i<3;i++){s+=i}s", "var i = 0 , s = 0 ;\nfor ( ; i < 3 ; i ++ ) { s += i }\ns"), ("2**3**2", "2 ** (3 ** 2)"), ("-2**2 === undefined || true", "true"),
+               ("/\\d+/.test('12')", "(/\\d+/.test('12'))"), ("/'/.test(\"'\")", "(/'/.test(\"'\"))"), ("/[/]/.test('/')", "[/[/]/.test('/')][0]"), ("/#@/.test('#@')", "(((/#@/).test('#@')))"),
+               ("/\\//.test('/')", "!(!(/\\//.test('/')))"), ("'a/b'.split(/\\//).length", "('a/b'.split((/\\//)).length)"), ("/\"/.test('\"')", "(/\"/.test('\"'))"),
+               ("var f = function(r){ return r.source }; f(/a'b/)", "var f = function(r){ return r.source }; (f((/a'b/)))"), ("/\\)/.test(')')", "(/\\)/.test(')'))"), ("/[(]/.test('(')", "((/[(]/).test('('))"),
+               ("1 + 2", "1 /**/ + /***/ 2"), ("1 + 2", "1 /** doc **/ + 2 /* * / */"), ("1 + 2", "/*/ */ 1 + 2 /* // */"), ("1 + 2", "1 + // /* \n 2"), ("1 + 2", "1 /* \n // \n */ + 2"), ("3 * 4", "3 /****/ * /** * **/ 4"),
                ("typeof typeof 1", "typeof (typeof 1)"), ("!!'a'", "! ( ! 'a' )"), ("1 - -1", "1 - (-1)"), ("var a=1;a+++1", "var a = 1; (a++) + 1"), ("[[1].length,[2,3].length]", "[ [ 1 ] . length , [ 2 , 3 ] . length ]")]
 
 
@@ -116,7 +134,7 @@ def c13_bounded(tier="quick", seed=0):
                     prev = p[:o].rstrip()
                     restricted = prev.endswith(("return", "break", "continue", "throw")) or p[o:o + 2] in ("++", "--")
                     if not restricted and not _inside_regex(p, o):
-                        pieces.append(rng.choice(["", " ", "\n", "\t", "/*c*/", " // c\n", "  "]))
+                        pieces.append(rng.choice(["", " ", "\n", "\t", "/*c*/", " // c\n", "  ", "/**/", "/** d **/", "/* ' \" */", " // ' /* \n"]))
                 last = o
             pieces.append(p[last:])
             q = "".join(pieces)
@@ -127,6 +145,27 @@ def c13_bounded(tier="quick", seed=0):
                 r = type(e).__name__ + ": " + str(e)[:60]
             if r != base and bad is None:
                 bad = (q, r, base)
+    # block comments with every body over {*, /, a, space, newline} up to length 4 (those not containing the terminator)
+    cbad = None
+    cn = 0
+    cc = Context(time_limit=10)
+    for ln in range(0, 5):
+        for body in itertools.product("*/a \n", repeat=ln):
+            body = "".join(body)
+            if "*/" in body or ("*" + "/") in (body + "*")[-2:] and body.endswith("*") and False:
+                continue
+            src = f"1 /*{body}*/ + 2"
+            if "*/" in f"/*{body}*/"[:-2][2:] + "":
+                continue
+            cn += 1
+            try:
+                r = cc.eval(src)
+            except Exception as e:  # noqa
+                r = type(e).__name__
+            if r != 3 and cbad is None:
+                cbad = (src, r)
+    out.append(ob("C13.bounded.block-comments", cbad is None, "B", f"{cn} comment bodies are skipped" if cbad is None else f"{cbad[0]!r} evaluates to {cbad[1]!r}",
+                  witness=(cbad[0] if cbad else None), confirmed=True if cbad else None, domain=cn))
     out.append(ob("C13.bounded.trivia-insertion", bad is None, "B", f"{n} re-rendered programs" if bad is None else f"result {bad[1]!r} instead of {bad[2]!r}", witness=(bad[0] if bad else None),
                   confirmed=True if bad else None, domain=n))
     return out
